@@ -100,7 +100,7 @@ def plaintext(n: int, klass: str, rng) -> bytes:
     raise ValueError(klass)
 
 
-CLASSES = ["constant", "period3", "period64", "period4096", "random", "random-tail", "text"]
+CLASSES = ["constant", "period3", "period64", "period4096", "period20000", "random", "random-tail", "text"]
 VARIANTS = ["joserfc", "ref-l6", "ref-l1", "ref-l9", "ref-rle", "ref-fixed", "ref-huffman", "ref-stored", "ref-framed", "ref-empty-block-tail", "ref-sync-flush-chunks"]
 
 
@@ -287,7 +287,7 @@ def run_shard(ctx):
                 if (vi + len(VARIANTS)) % ctx.nshards != ctx.shard:
                     continue
             for n in (255999, 256000, 256001, 256002, 256100, 256257, 256258, 256259):
-                for klass in ("constant", "period3", "random", "random-tail"):
+                for klass in ("constant", "period3", "random", "random-tail", "period20000"):
                     mon.case(n, klass, variant, rng.choice(g.ENCS), rng.choice(["compact", "flattened", "general"]), rng)
         # bombs
         if ctx.shard in (0, 1, 2):
